@@ -439,6 +439,10 @@ def _specific_yield(ctx, chk, rprog):
             chk.ob("C16.O2", p_out.key() == rk, where_of(cls_f, outs[0]), "Sy_soil[i] = %s" % p_out.key(),
                    "R reference: %s" % rk, key="get_Sy_soil|normalisation",
                    why="the storage change is divided by the water-level increment of that level")
+        except ZeroDivisionError:
+            chk.ob("C16.O2", False, where_of(cls_f, outs[0]), "Sy_soil[i] = %s divides by zero" % ast.unparse(outs[0].value),
+                   "A / (zu[i] - zl[i])", key="get_Sy_soil|normalisation",
+                   why="the storage change is divided by the water-level increment of that level")
         except NotAlgebraic as exc:
             chk.indeterminate("C16.O2", where_of(cls_f, outs[0]), "cannot normalise Sy_soil[i]: %s" % exc)
     else:
